@@ -13,6 +13,7 @@ package dnssvc
 // TLC (TraceEcsCache.tla) decides.
 
 import (
+	"sync"
 	"context"
 	"fmt"
 	"math/rand"
@@ -146,11 +147,28 @@ func c05NewWorld(t *testing.T, ns string) *c05World {
 	reg := prometheus.NewRegistry()
 	prometheus.DefaultRegisterer, prometheus.DefaultGatherer = reg, reg
 	g := agdtest.NewGeoIP()
+	// Like the real database (geoip.File.Data), the scripted one hands out ONE location object per /24 (/56)
+	// for as long as it lives, also for addresses it knows nothing about (a location without a country):
+	// callers share these objects and must not write to them.
+	var geoMu sync.Mutex
+	geoCache := map[netip.Prefix]*geoip.Location{}
 	g.OnData = func(_ string, ip netip.Addr) (*geoip.Location, error) {
-		if l := c05Loc(ip); l != "unknown" {
-			return &geoip.Location{Country: geoip.Country(l), Continent: geoip.ContinentEU, ASN: 64500}, nil
+		bits := 24
+		if ip.Is6() {
+			bits = 56
 		}
-		return nil, nil
+		key, _ := ip.Prefix(bits)
+		geoMu.Lock()
+		defer geoMu.Unlock()
+		if l, ok := geoCache[key]; ok {
+			return l, nil
+		}
+		l := &geoip.Location{ASN: 64999}
+		if c := c05Loc(ip); c != "unknown" {
+			l = &geoip.Location{Country: geoip.Country(c), Continent: geoip.ContinentEU, ASN: 64500}
+		}
+		geoCache[key] = l
+		return l, nil
 	}
 	g.OnSubnetByLocation = func(l *geoip.Location, fam netutil.AddrFamily) (netip.Prefix, error) {
 		f := "v4"
